@@ -73,50 +73,61 @@ def must_fail(chk, r, what, prop):
 # 1. the model
 
 def model_check(chk, tier):
+    """All TLC runs on the design model; they are independent, so they run side by side (4 at a time, 4 workers each)."""
+    from concurrent.futures import ThreadPoolExecutor
     thorough = tier == "thorough"
+    S3, K2 = tla_set(["Success", "ResourceExhausted", "Killed"]), tla_set(["ok", "oserror"])
     inv = "SPECIFICATION Spec\nCONSTRAINT Bound\n" + "".join("INVARIANT %s\n" % i for i in INVARIANTS) + "".join("PROPERTY %s\n" % p for p in PROPS)
-    grid = [dict(MaxTick=0, MaxRun=2, MaxSnaps=2), dict(MaxTick=1, MaxRun=1, MaxSnaps=2), dict(MaxTick=0, MaxRun=1, MaxSnaps=3, MaxKill=2)]
+    jobs = []      # (kind, name, consts, body, property expected to fail | None, coverage)
+    jobs.append(("cover", "cover", dict(MaxTick=1, MaxRun=2, MaxSnaps=2, Reasons=tla_set(["ResourceExhausted", "Killed"]), Kinds=tla_set(["ok"])), inv, None, True))
+    grid = [dict(MaxTick=0, MaxRun=2, MaxSnaps=2), dict(MaxTick=1, MaxRun=1, MaxSnaps=2), dict(MaxTick=0, MaxRun=1, MaxSnaps=3, MaxKill=2, Reasons=S3, Kinds=K2)]
     if thorough:
-        grid += [dict(MaxTick=1, MaxRun=2, MaxSnaps=3, Reasons=tla_set(["Success", "ResourceExhausted", "Killed"]), Kinds=tla_set(["ok", "oserror"])),
-                 dict(MaxTick=0, MaxRun=3, MaxSnaps=2, MaxKill=2, Reasons=tla_set(["Success", "ResourceExhausted", "Killed"]), Kinds=tla_set(["ok", "oserror"]))]
-    cover = {}
+        grid += [dict(MaxTick=0, MaxRun=1, MaxSnaps=3, MaxKill=2), dict(MaxTick=1, MaxRun=2, MaxSnaps=3, Reasons=S3, Kinds=K2),
+                 dict(MaxTick=0, MaxRun=3, MaxSnaps=2, MaxKill=2, Reasons=S3, Kinds=K2)]
     for i, g in enumerate(grid):
-        r = tlc.run_tlc("EngineLifecycle", cfg("fine%d_%s" % (i, tier), g, inv), timeout=1500, coverage=(i < 2))
-        must_hold(chk, r, "fine-grained model %s" % g)
-        for a, n in (r.get("coverage") or {}).items():
-            cover[a] = cover.get(a, 0) + n
-    missing = [a for a in ACTIONS if not cover.get(a)]
-    if missing:
-        raise MachineryError("actions of EngineLifecycle.tla never taken (vacuous model): %s; coverage %s" % (missing, cover))
-    chk.cov["action_coverage"] = {a: cover.get(a) for a in ACTIONS}
+        jobs.append(("hold", "fine%d" % i, g, inv, None, False))
     # the stream properties hold when snapshots keep their order and no clock tick slips in between (a tick reads a fresh
     # stateDictionary straight into the FIFO part and so overtakes every snapshot still in its trigger-pool hop)
-    r = tlc.run_tlc("EngineLifecycle", cfg("fifo_%s" % tier, dict(Order='"fifo"', MaxTick=0, MaxRun=2, MaxSnaps=3),
-                                           inv + "".join("PROPERTY %s\n" % p for p in FIFO_PROPS)), timeout=1500)
-    must_hold(chk, r, "order-preserving emission (fifo)")
+    jobs.append(("hold", "fifo", dict(Order='"fifo"', MaxTick=0, MaxRun=2, MaxSnaps=3), inv + "".join("PROPERTY %s\n" % p for p in FIFO_PROPS), None, False))
     # liveness under fairness
-    r = tlc.run_tlc("EngineLifecycle", cfg("live_%s" % tier, dict(MaxTick=0, MaxRun=2, MaxSnaps=2, Reasons=tla_set(["Success", "ResourceExhausted", "Killed"]),
-                                                                   Kinds=tla_set(["ok", "oserror"])),
-                                           "SPECIFICATION FairSpec\nCONSTRAINT Bound\nPROPERTY KillLeadsToDead\nPROPERTY ShutdownLeadsToCompletion\nPROPERTY DeadEventuallyKnown\n"),
-                    timeout=1500)
-    must_hold(chk, r, "liveness under fairness")
+    jobs.append(("hold", "live", dict(MaxTick=0, MaxRun=2 if thorough else 1, MaxSnaps=2, Reasons=S3, Kinds=K2),
+                 "SPECIFICATION FairSpec\nCONSTRAINT Bound\nPROPERTY KillLeadsToDead\nPROPERTY ShutdownLeadsToCompletion\nPROPERTY DeadEventuallyKnown\n", None, False))
     # witnesses (vacuity): the interesting corners are reachable
     for w in ("WitnessRestartedKilled", "WitnessCompleted", "WitnessStale"):
-        r = tlc.run_tlc("EngineLifecycle", cfg("wit_%s" % w, dict(MaxTick=0, MaxRun=2, MaxSnaps=2), "SPECIFICATION Spec\nCONSTRAINT Bound\nINVARIANT %s\n" % w),
-                        timeout=900, expect_violation=True)
-        must_fail(chk, r, "witness", w)
+        jobs.append(("witness", "wit_" + w, dict(MaxTick=0, MaxRun=2, MaxSnaps=2), "SPECIFICATION Spec\nCONSTRAINT Bound\nINVARIANT %s\n" % w, w, False))
     # named deviations: strong properties the code does not satisfy (expected counterexamples)
-    dev = {}
     for prop, consts, name in (
             ("NoLaunchAfterKillCalled", dict(MaxTick=0, MaxRun=1, MaxSnaps=2), "KillLate"),
             ("ReasonNeverClobbered", dict(Order='"fifo"', MaxTick=0, MaxRun=1, MaxSnaps=3), "ExitInfoClobber"),
             ("FirstDeadCarriesReason", dict(Order='"any"', MaxTick=0, MaxRun=1, MaxSnaps=3), "SnapshotOvertaking/first-dead-without-reason"),
             ("NoResurrection", dict(Order='"any"', MaxTick=0, MaxRun=1, MaxSnaps=3), "SnapshotOvertaking/alive-after-dead"),
             ("NoResurrection", dict(Order='"fifo"', MaxTick=1, MaxRun=1, MaxSnaps=3), "ClockTickOvertakesSnapshot/alive-after-dead")):
-        r = tlc.run_tlc("EngineLifecycle", cfg("dev_%s_%s" % (prop, name.split("/")[0]), consts, "SPECIFICATION Spec\nCONSTRAINT Bound\nPROPERTY %s\n" % prop), timeout=900,
-                        expect_violation=True)
-        must_fail(chk, r, name, prop)
-        dev[name] = "counterexample to %s found by TLC (%d states)" % (prop, r.get("distinct", 0))
+        jobs.append(("deviation", name, consts, "SPECIFICATION Spec\nCONSTRAINT Bound\nPROPERTY %s\n" % prop, prop, False))
+
+    def one(job):
+        kind, name, consts, body, prop, cov = job
+        c = cfg("%s_%s_%s" % (kind, re.sub(r"\W", "_", name), tier), consts, body)
+        try:
+            return tlc.run_tlc("EngineLifecycle", c, timeout=1500, workers=4, coverage=cov, expect_violation=prop is not None)
+        except MachineryError as e:
+            return e
+    with ThreadPoolExecutor(4) as ex:
+        results = list(ex.map(one, jobs))
+    dev = {}
+    for (kind, name, consts, body, prop, cov), r in zip(jobs, results):
+        if isinstance(r, Exception):
+            raise r
+        if prop is None:
+            must_hold(chk, r, "%s %s" % (name, consts))
+        else:
+            must_fail(chk, r, name, prop)
+            if kind == "deviation":
+                dev[name] = "counterexample to %s found by TLC (%d states)" % (prop, r.get("distinct", 0))
+        if cov:
+            missing = [a for a in ACTIONS if not r["coverage"].get(a)]
+            if missing:
+                raise MachineryError("actions of EngineLifecycle.tla never taken (vacuous model): %s; coverage %s" % (missing, r["coverage"]))
+            chk.cov["action_coverage"] = {a: r["coverage"].get(a) for a in ACTIONS}
     chk.cov["named_deviations_witnessed"] = dev
 
 
@@ -126,7 +137,7 @@ def model_check(chk, tier):
 def emit_cases(chk, tier):
     thorough = tier == "thorough"
     out = []
-    plan = [("fifo", dict(MaxEnv=8, MaxKill=2, MaxTick=1, MaxRun=3)), ("lifo", dict(MaxEnv=7, MaxKill=1, MaxTick=1, MaxRun=2))]
+    plan = [("fifo", dict(MaxEnv=7, MaxKill=2, MaxTick=1, MaxRun=3)), ("lifo", dict(MaxEnv=7, MaxKill=1, MaxTick=1, MaxRun=2))]
     if thorough:
         plan = [("fifo", dict(MaxEnv=9, MaxKill=2, MaxTick=2, MaxRun=3, Reasons=tla_set(REASONS_T))),
                 ("lifo", dict(MaxEnv=8, MaxKill=2, MaxTick=1, MaxRun=3))]
@@ -405,6 +416,9 @@ def consumer_view(updates):
 
 
 KNOWN_CONTRACT_DIVERGENCES = {
+    "alive-after-restart-announced-later":
+        "timing only: FakeEngine.run() emits isAlive=True immediately after a restart, the real engine with its next snapshot (clock tick "
+        "within 5 s, or the launch); the sequence ended in between.",
     "restart-then-exit-before-any-alive-snapshot":
         "after restart() the real engine does not emit by itself (run() has no emit_now): isAlive=True reaches the consumer with the next "
         "snapshot (5 s clock tick, launch).  If the restarted execution ends before that (kill during the start delay), the consumer "
@@ -429,7 +443,12 @@ def contract_case(case, scratch):
     real_updates = d.all_updates
     # the same environment on the FakeEngine
     fw = W.World()
-    h = types.SimpleNamespace(world=fw, event=lambda *a, **k: None)
+    class _H:                     # the harness object FakeEngine reports to: only its world matters here
+        world = fw
+
+        def __getattr__(self, name):
+            return lambda *a, **k: None
+    h = _H()
     fe = ctl.FakeEngine(job, h)
     fups = []
     fe.stateUpdates.subscribe(on_next=lambda x: fups.append(G.abstract_update(x[0])))
@@ -472,6 +491,10 @@ def contract_case(case, scratch):
         # known: a restarted execution that ends before any snapshot was taken while it was alive
         k = 0
         x, y = list(rv), list(fv)
+        late = False
+        if y and y[-1] == "alive" and x == y[:-1]:
+            out.append(("alive-after-restart-announced-later", "%s: at the end of the sequence the real Engine has not yet told that it is alive again: %s, FakeEngine %s" % (hist, rv, fv)))
+            return out
         known = True
         # remove from the fake's view every (alive, dead:r) pair that the real view lacks, if the real view is otherwise equal
         i = j = 0
